@@ -77,13 +77,20 @@ add("C19","E4 scripted RNG environment","exploration",
     "The RNG is an environment whose every answer is scripted. Limb::random_mod for moduli < 2^16: EVERY 1-/2-byte answer (256 / 65536 scripts per modulus) - no value >= m and every v < m has exactly the same number of preimages (uniformity decided by counting, not statistics); Uint/BoxedUint random_mod with bits(m) <= 12: all low-bit answers x 3 high patterns, each v < m exactly once; multi-limb moduli: all-equal scripts decide the acceptance boundary exactly, all scripts of length 5 over an 8-word alphabet: range, provenance, fixed == boxed in value and stream position; random_bits for EVERY bit length 0..=BITS+2 on four streams (all-ones must give 2^bl-1, little-endian layout, errors exactly when documented, Uint == Int == BoxedUint) plus a counting argument for bit lengths <= 12; Random for Uint/Int/Wrapping/NonZero/Odd/ConstMontyForm; 2000/20000 ChaCha8 streams for range and width independence.",
     ASSUME + " Uniformity for multi-limb moduli is NOT decided (2^64 answers per word): only range, acceptance boundary and width independence are.", "exhaustive enumeration of scripted RNG answers (environment-answer exploration) with exact preimage counting", "DESIGN.md §3.C19")
 
+add("C11","all engines, two build profiles","exploration",
+    "Totality as an assertion over everything the families of C02-C10, C12-C14, C16-C20 explore, in BOTH build profiles (opt-level 3 without debug assertions / opt-level 1 with debug assertions and overflow checks): every form call sits alone inside catch_unwind under a 60 s watchdog; in-domain inputs must not panic, option/result-returning forms must not panic for any argument (zero moduli/divisors, shifts up to u32::MAX, empty/oversized/garbage encodings, the numeral 0), and panicking convenience forms must panic exactly in their documented cases. Quick tier: every 12th index of each family's quick enumeration; thorough: the complete quick enumerations, both profiles.",
+    ASSUME + " The expected-panic table is transcribed from the rustdoc of each operation.", "bounded-exhaustive enumeration of the real code in two build profiles with per-call panic capture and a non-termination watchdog", "DESIGN.md §3.C11")
+add("C15","differential layer over all families + fixed/boxed + const/runtime grids","exploration",
+    "Route equivalence as an assertion over everything the families explore: within every group of forms of one operation (inherent, trait, operators by value/reference/assigning, Wrapping, Checked, ct vs _vartime, precomputed vs one-shot; ~870 form pairs, listed with counts in the evidence) every form must be bit-identical to the group's first form (value, flags, none, panic alike); plus Uint<N> vs BoxedUint(64N) for N in {1,2,3,4,8,16,32,64} on ~55 operations incl. the documented result precision, and ~50 const fn operations evaluated by the compiler in const items vs the same expressions at run time behind black_box (5x5 grids, widths 1 and 4). Quick tier: every 6th index of each family's quick enumeration; thorough: complete.",
+    ASSUME, "bounded-exhaustive differential enumeration between routes of the real code (no reference model needed)", "DESIGN.md §3.C15")
+
 NOT_YET = {}
 ALL = [f"C{i:02d}" for i in range(1,21)]
 import os, sys
 not_app = [dict(property_id=p, reason="check not built yet in this round (planned, see DESIGN.md §8); nothing is claimed for it")
            for p in ALL if p not in C]
 m = dict(version=1,
-    setup_cmd="cd /verif/harness && CARGO_NET_OFFLINE=true CARGO_TARGET_DIR=/verif/target/rel cargo build --offline --release --bins",
+    setup_cmd="cd /verif/harness && CARGO_NET_OFFLINE=true CARGO_TARGET_DIR=/verif/target/rel cargo build --offline --release --bins && CARGO_NET_OFFLINE=true CARGO_TARGET_DIR=/verif/target/dbg cargo build --offline --profile dbg --bins",
     hooks=dict(guard="rustcrypto_crypto_bigint_verif", enable="none needed: all checks drive the public API of /repo as a path dependency (no hooks in /repo)",
                baseline_off_cmd="cd /repo && cargo test --workspace --no-fail-fast --offline", source_commits=[], add_only=True),
     engines=[dict(name="vharness", path="/verif/harness", serves_properties=sorted(C), kind_free_text="Rust harness crate path-depending on /repo: shape-exhaustive enumerators (E1), stateright explicit-state search (E2), scripted RNG (E4), grammar-exhaustive codec explorer (E5)")],
